@@ -522,10 +522,12 @@ class History:
             if props:
                 i = self.rng.randrange(len(props)); n_, t_ = props[i]
                 good = bytes([i]) + gen_types.wire_of(t_, self.val(t_))
-                state = self.rng.choice([bytes([2]) + good,                       # announces two values, carries one
-                                         bytes([1]) + good[:max(1, len(good) - 1)],   # value cut short
-                                         bytes([1, 250]) + b'\x00',                 # property index out of range
-                                         bytes([1]) + good + b'\x99'])              # trailing garbage after the last value
+                kind = self.rng.randrange(4)
+                state = [bytes([2]) + good,                       # announces two values, carries one: the second index cannot be read
+                         bytes([1, 250]) + b'\x00',                # property index out of range
+                         bytes([1]) + good[:max(1, len(good) - 1)],   # value cut short (a variable-length value may still decode, shorter)
+                         bytes([1]) + good + b'\x99'][kind]         # trailing byte after the last value (refused only where the dialect checks it)
+                if kind >= 2: self.spec_unsure = True               # may legitimately succeed: library and model are still compared, the SPEC state is not
             else: state = bytes([1, 0, 0])
             self.emit('EntityCreate', head + binstream(state), 'fault-create-bad-state')
         elif r < 0.75:
